@@ -11,8 +11,9 @@ from ipaddress import ip_address, ip_network
 from select import select
 
 import xfrm
+from configuration import ConfigurationError
 from ikesa import IkeSa
-from message import (Message, TrafficSelector)
+from message import (IkeSaError, Message, TrafficSelector)
 
 __author__ = 'Alejandro Perez-Mendez <alejandro.perez.mendez@gmail.com>'
 
@@ -151,7 +152,11 @@ class IkeSaController:
                 for my_addr, sock in udp_sockets.items():
                     if sock in readable:
                         data, peer_addr = sock.recvfrom(4096)
-                        data = self.dispatch_message(data, my_addr, peer_addr[0])
+                        try:
+                            data = self.dispatch_message(data, my_addr, peer_addr[0])
+                        except (IkeSaError, ConfigurationError) as ex:
+                            logging.warning(f'Dropping message received from {peer_addr[0]}: {ex}')
+                            continue
                         if data:
                             sock.sendto(data, peer_addr)
 
@@ -159,10 +164,13 @@ class IkeSaController:
                     data = xfrm_socket.recv(4096)
                     header, msg, attributes = xfrm.Xfrm.parse_message(data)
                     reply_data, my_addr, peer_addr = None, None, None
-                    if header.type == xfrm.XFRM_MSG_ACQUIRE:
-                        reply_data, my_addr, peer_addr = self.process_acquire(msg, attributes)
-                    elif header.type == xfrm.XFRM_MSG_EXPIRE:
-                        reply_data, my_addr, peer_addr = self.process_expire(msg)
+                    try:
+                        if header.type == xfrm.XFRM_MSG_ACQUIRE:
+                            reply_data, my_addr, peer_addr = self.process_acquire(msg, attributes)
+                        elif header.type == xfrm.XFRM_MSG_EXPIRE:
+                            reply_data, my_addr, peer_addr = self.process_expire(msg)
+                    except (IkeSaError, ConfigurationError) as ex:
+                        logging.warning(f'Ignoring XFRM event: {ex}')
                     if reply_data:
                         dst_addr = (str(peer_addr), 500)
                         udp_sockets[my_addr].sendto(reply_data, dst_addr)
